@@ -139,7 +139,7 @@ template<unsigned NOPS, uint32_t OPT, uint32_t SYM, unsigned KMODE, unsigned BC,
   }
   else if (has(SAE)) c.lit(", {sae}");
   V_ASSERT(c.at_end(), "x86 instruction line names exactly the options, mnemonic, operands and decorations given");
-  observe_text<64>(sb);
+  observe_text<96>(sb);
   V_WITNESS("x86 line formatted");
 }
 // ---- option words: symbolic within a group, no operands ---------------------------------------------------------------------
